@@ -148,6 +148,9 @@ func renamePtKey(in any, to, from string) error {
 		return fmt.Errorf("key(from) %s not found", from)
 	}
 
+	// the new name replaces whatever was stored under it, tag or field
+	pt.Delete(to)
+
 	switch v.PtFlag { //nolint:exhaustive
 	case input.PtField:
 		if v, ok := pt.Fields[from]; ok {
@@ -160,6 +163,10 @@ func renamePtKey(in any, to, from string) error {
 		}
 		delete(pt.Tags, from)
 	}
+
+	// the key index follows the value
+	pt.Meta[to] = v
+	delete(pt.Meta, from)
 	return nil
 }
 
